@@ -19,7 +19,7 @@ CANONICAL = {
     "floatRangeContent_NS": ["-90", "90", "0", "45.5", "-89.999"],
     "floatContent_Nonnegative": ["0", "0.0", "2.5", "1e-3", "100"],
     "intContent": ["0", "12", "-3", "2024"],
-    "timeContent": ["12:30:00", "00:00:00", "23:59:59.5", "08:15", "13:45:30+02:00"],
+    "timeContent": ["12:30:00", "00:00:00", "23:59:59.5", "08:15", "13:45:30+02:00", "12:30:00Z", "14:34:32.001-06:00"],
     "yearDateContent": ["2020", "1999-12-31", "2020-02-29", "0001"],
     "uriContent": ["https://example.org/a/b", "http://example.org", "ftp://ftp.example.org/pub/x.txt",
                    "https://example.org:8080/p?q=1#f"],
